@@ -69,6 +69,9 @@ def main(argv=None):
             return setup()
         if a.what == "replay":
             return replay(a.path)
+        if a.what == "suite":
+            from . import suite
+            return suite.main(a.tier, a.seed)
         if a.what == "selftest":
             from . import selftest
             return selftest.main(a.tier, a.seed)
